@@ -32,7 +32,15 @@ def handleClean (j : Json) (op : String) : Json :=
         let arr := items.toArray
         if outIdx.any (fun i => i ≥ arr.size) then err "bad-args" else
         let out := outIdx.filterMap (fun i => arr[i]?)
-        Json.mkObj [("ok", Json.bool (checkClean d kg items out)), ("clause", Json.str (checkCleanClause d kg items out))]
+        let grp := fun (rel : Item Int → Item Int → Bool) =>
+          Json.arr ((checkGroups rel kg items out).map (fun (r : Int × Bool × String) =>
+            Json.mkObj [("group", (r.1 : Json)), ("ok", Json.bool r.2.1), ("clause", Json.str r.2.2)])).toArray
+        Json.mkObj [("ok", Json.bool (checkClean d kg items out)), ("clause", Json.str (checkCleanClause d kg items out)),
+                    ("ok_le", Json.bool (checkCleanLe d kg items out)),
+                    ("clause_le", Json.str (checkCleanClauseR (closerLe d) kg items out)),
+                    ("independent", Json.bool (checkIndependent (closer d) kg items out)),
+                    ("independent_le", Json.bool (checkIndependent (closerLe d) kg items out)),
+                    ("groups", grp (closer d)), ("groups_le", grp (closerLe d))]
       | none => err "bad-args"
     | _ => err "bad-op"
   | _, _, _, _ => err "bad-args"
